@@ -94,6 +94,10 @@ def _cases_core(rng, tier):
         ser = _varint_indep(len(raw)) + raw
         yield "scr_parse " + hx(ser), "parse-valid"
         yield "scr_parse " + hx(ser + bytes(rng.getrandbits(8) for _ in range(rng.randint(1, 5)))), "parse-trailing"
+        # a stream that has been read from before (header consumed, earlier script parsed): position k > 0
+        pre = bytes(rng.getrandbits(8) for _ in range(rng.randint(1, 9)))
+        yield "scr_parse %s %d" % (hx(pre + ser), len(pre)), "parse-positioned"
+        yield "scr_parse %s %d" % (hx(ser + ser), len(ser)), "parse-second-record"
         cuts = range(len(ser)) if len(ser) <= 80 or tier == "thorough" else \
             sorted(set([0, 1, 2, 3, len(ser) - 1, len(ser) - 2] + [rng.randrange(len(ser)) for _ in range(6)]))
         for c in cuts:
@@ -109,6 +113,7 @@ def _cases_core(rng, tier):
         if enc is not None:
             tail = bytes(rng.getrandbits(8) for _ in range(rng.randint(0, 3)))
             yield "vi_read " + hx(enc + tail), "varint-read"
+            yield "vi_read %s %d" % (hx(tail + enc + tail), len(tail)), "varint-positioned"
             for c in range(len(enc)):
                 yield "vi_read " + hx(enc[:c]), "varint-prefix"
     for _ in range(200 if tier == "quick" else 5000):
@@ -173,6 +178,13 @@ def _parse_indep(bs):
     return cmds, rest
 
 
+def _positioned(arg):
+    """`<hex> [k]`: the bytes the parser gets to see when the stream has already been read up to position k"""
+    parts = arg.split(" ")
+    bs = unhex(parts[0])
+    return bs[int(parts[1]):] if len(parts) > 1 else bs
+
+
 def oracle(line, out):
     op, arg = line.split(" ", 1)
     v = ok_val(out)
@@ -197,7 +209,7 @@ def oracle(line, out):
                 return "parse(serialize(script)) != script: %s" % back[:120]
         return None
     if op == "scr_parse":
-        bs = unhex(arg)
+        bs = _positioned(arg)
         want = _parse_indep(bs)
         if v is None:
             # rejecting is always allowed except for serialisations of well-formed scripts
@@ -227,7 +239,7 @@ def oracle(line, out):
             return "read_varint(encode_varint(n)) != n: %s" % back
         return None
     if op == "vi_read":
-        bs = unhex(arg)
+        bs = _positioned(arg)
         if not bs:
             return None if v is None else "empty input accepted"
         need = {0xfd: 3, 0xfe: 5, 0xff: 9}.get(bs[0], 1)
